@@ -3,7 +3,7 @@
 def K(prefix, **kw):
     d = dict(filters_quick=[prefix + "_"], filters_thorough=[prefix + "_", prefix + "t_"], jobs=8,
              harness_timeout=600, harness_timeout_thorough=3000, total_timeout=3000, total_timeout_thorough=14000,
-             lift_asm=False)
+             lift_asm=True)
     d.update(kw)
     return d
 
@@ -14,6 +14,10 @@ PROPS = {
     "C08": K("c08", bounds="all raw entries / aligned addresses / flag sets; 3-step setter programs; all 512 slots (unwind 514)"),
     "C14": K("c14", bounds="one append from every valid table state, MAX in {1,2,3,8,9} (unwind MAX+2); all descriptors, all u16 selectors"),
     "C15": K("c15", bounds="no loop; all 2^64 TSS addresses, all descriptor bit patterns"),
+    "C17": K("c17", bounds="all RFLAGS values; nesting depth <= 3 (every shape); ISA model of cli/sti/hlt/pushfq/popfq is the trusted base",
+             trusted_base=["rustc->Kani->CBMC", "CaDiCaL", "overlay O1-O4", "ISA model harness/src/verif_isa (cli, sti, hlt, pushfq;pop)"]),
+    "C18": K("c18", bounds="no loop; all 65536 ports x all values x 3 widths x 3 access kinds",
+             trusted_base=["rustc->Kani->CBMC", "CaDiCaL", "overlay O1-O4", "ISA model harness/src/verif_isa (in/out)"]),
     "C07": K("c07", bounds="operators: all values (debug profile); ranges: one next() from every range + full iteration of ranges with <= 4 items (unwind 7)"),
     "C03": K("c03", bounds="no loop; all 2^64 (pairs: 2^128) input values; one operation per harness, closure by induction on the type invariant",
              assumptions=["inputs of composed operations satisfy the type invariant (canonical / < 2^52), which each operation is shown to preserve"]),
